@@ -11,6 +11,7 @@ operand: {"r":[bank,idx]} | {"i":v} | {"lab":name} | {"t":name} | {"a":addr}
 """
 import copy
 import logging
+import random  # noqa: F401  (used by the plug-in for per-case rendering seeds)
 
 from vlib import common
 
